@@ -30,6 +30,16 @@ def main():
             na.append({"property_id": pid, "reason": reason or NA.get(pid, NA_DEFAULT)})
             continue
         served.append(pid)
+        # the rule list is taken from what the check actually evaluated (last evidence file), so the claim cannot lag behind the rules
+        rules_txt = ""
+        try:
+            ev = json.load(open(os.path.join(VERIF, "evidence", pid + ".json")))
+            rl = [r for r in ev["coverage"].get("rules", []) if r.get("instances", 0) > 0 or r.get("floor", 0) > 0]
+            rules_txt = " Rules evaluated on every run (generated from the check's own evidence): " + "; ".join("%s: %s" % (r["rule"], r["title"]) for r in rl) + "."
+        except Exception:
+            pass
+        claim = dict(claim)
+        claim["text"] = claim["text"] + rules_txt
         checks.append({
             "property_id": pid,
             "quick_cmd": "./check %s --tier quick" % pid,
